@@ -1,57 +1,92 @@
 #!/bin/bash
 # usage: tools/seedtest.sh <seed-dir> <name> <tier> <check ids...>
-# Confirms a seeded change (demo passes on the unchanged tree, fails with the change, suite still
-# builds), stores it under /verif/seeded/<name>/ and runs the given checks against /repo with the
-# change applied (reverted afterwards). Prints one line per check: DETECTED / MISSED.
+# Confirms a seeded change in a scratch worktree of /repo (demo passes on the unchanged tree, fails
+# with the change; the change builds and the repository's own suite still passes), stores it under
+# /verif/seeded/<name>/ and runs the given checks against the scratch worktree with the change
+# applied (VERIF_REPO; /repo itself is not touched, so several seeds can be tried in parallel).
+# SEED_IN_REPO=1 applies the patch to /repo itself instead (git apply / git checkout -- .), the way
+# a registered command meets it. Prints one line per check: DETECTED / MISSED / INFRA.
 set -u
 export GOFLAGS=-mod=mod GOPROXY=off GOSUMDB=off GOTOOLCHAIN=local
 src="$1"; name="$2"; tier="$3"; shift 3
 [ -f "$src/patch.diff" ] || { echo "no patch in $src"; exit 2; }
-demo=$(ls "$src"/demo_test.go "$src"/demo/main.go 2>/dev/null | head -1)
+demo=$(ls "$src"/demo_test.go 2>/dev/null | head -1)
 out=/verif/seeded/$name
 mkdir -p "$out"
-cp "$src/patch.diff" "$out/patch.diff"
-[ -n "$demo" ] && cp "$demo" "$out/$(basename $demo)"
-[ -f "$src/meta.json" ] && cp "$src/meta.json" "$out/meta.agent.json"
-V=/tmp/seedverify-$$
+[ "$src" -ef "$out" ] || {
+  cp "$src/patch.diff" "$out/patch.diff"
+  [ -n "$demo" ] && cp "$demo" "$out/demo_test.go"
+  [ -f "$src/meta.json" ] && cp "$src/meta.json" "$out/meta.agent.json"
+}
+L=/verif/.work/seedlogs/$name; mkdir -p "$L"
+V=/tmp/seedverify-$name-$$
 git -C /repo worktree add -q --detach "$V" HEAD || exit 2
-trap 'git -C /repo worktree remove --force "$V" >/dev/null 2>&1; git -C /repo checkout -- . 2>/dev/null' EXIT
-res_without=skip; res_with=skip; build_with=skip
-if [ -n "$demo" ] && [ "$(basename $demo)" = demo_test.go ]; then
-  pkg=$(grep -m1 '^package ' "$demo" | awk '{print $2}' | sed 's/_test$//')
-  case "$pkg" in fun) d=. ;; cmp) d=dt/cmp ;; hdrhist) d=dt/hdrhist ;; *) d=$pkg ;; esac
+cleanup() { git -C /repo worktree remove --force "$V" >/dev/null 2>&1; [ "${SEED_IN_REPO:-0}" = 1 ] && git -C /repo checkout -- . 2>/dev/null; }
+trap cleanup EXIT
+res_without=skip; res_with=skip; build_with=skip; suite_with=skip
+d=""
+if [ -n "$demo" ]; then
+  d=$(python3 -c "import json,sys;print(json.load(open('$out/meta.agent.json')).get('demo_dir',''))" 2>/dev/null)
+  if [ -z "$d" ]; then
+    pkg=$(grep -m1 '^package ' "$demo" | awk '{print $2}' | sed 's/_test$//')
+    case "$pkg" in fun) d=. ;; cmp) d=dt/cmp ;; hdrhist) d=dt/hdrhist ;; *) d=$pkg ;; esac
+  fi
+  d=${d%/}; [ -z "$d" ] && d=.
   cp "$demo" "$V/$d/zz_seed_demo_test.go"
   run=$(grep -o 'func Test[A-Za-z0-9_]*' "$demo" | sed 's/func //' | paste -sd'|')
-  (cd "$V" && timeout 600 go test -vet=off -count=1 -run "^($run)\$" "./$d/" > "$out/demo.without.log" 2>&1) && res_without=pass || res_without=FAIL
-  (cd "$V" && git apply "$out/patch.diff") || { echo "patch does not apply"; exit 2; }
-  (cd "$V" && go build ./... > "$out/build.with.log" 2>&1) && build_with=ok || build_with=FAIL
-  (cd "$V" && timeout 600 go test -vet=off -count=1 -run "^($run)\$" "./$d/" > "$out/demo.with.log" 2>&1) && res_with=pass || res_with=fail
-else
-  (cd "$V" && git apply "$out/patch.diff" && go build ./... > "$out/build.with.log" 2>&1) && build_with=ok || build_with=FAIL
+  (cd "$V" && timeout 900 go test -vet=off -count=1 -run "^($run)\$" "./$d/" > "$L/demo.without.log" 2>&1) && res_without=pass || res_without=FAIL
 fi
-echo "seed $name: demo without=$res_without with=$res_with build=$build_with"
-git -C /repo apply "$out/patch.diff" || { echo "patch does not apply to /repo"; exit 2; }
+(cd "$V" && git apply "$out/patch.diff") || { echo "seed $name: patch does not apply"; exit 2; }
+(cd "$V" && go build ./... > "$L/build.with.log" 2>&1) && build_with=ok || build_with=FAIL
+if [ -n "$demo" ]; then
+  (cd "$V" && timeout 900 go test -vet=off -count=1 -run "^($run)\$" "./$d/" > "$L/demo.with.log" 2>&1) && res_with=PASS || res_with=fail
+  rm -f "$V/$d/zz_seed_demo_test.go"
+fi
+if [ "${SEED_SKIP_SUITE:-0}" != 1 ]; then
+  (cd "$V" && timeout 1500 go test -vet=off -count=1 -timeout 20m ./... > "$L/suite.with.log" 2>&1) && suite_with=pass || {
+    # the srv ForceSigKILL test is flaky on the unchanged tree; anything else is a real failure
+    if grep -E '^(--- FAIL|FAIL|panic:)' "$L/suite.with.log" | grep -v -E 'ForceSigKILL|TestCmd|^FAIL$|FAIL\s+github.com/tychoish/fun/srv' | grep -q .; then suite_with=FAIL; else suite_with=pass-modulo-known-flaky-srv-TestCmd; fi
+  }
+fi
+echo "seed $name: demo without=$res_without with=$res_with build=$build_with suite_with_change=$suite_with"
 results=""
+if [ "${SEED_IN_REPO:-0}" = 1 ]; then
+  git -C /repo apply "$out/patch.diff" || { echo "patch does not apply to /repo"; exit 2; }
+  unset VERIF_REPO
+else
+  export VERIF_REPO="$V" VERIF_EVIDENCE_DIR="$L/evidence"
+fi
 for c in "$@"; do
-  /verif/check "$c" "$tier" > "$out/check.$c.$tier.log" 2>&1; rc=$?
-  sig=$(grep -m3 'signature:' "$out/check.$c.$tier.log" | sed 's/^ *signature: //' | paste -sd';')
-  if [ $rc -eq 1 ]; then echo "  $c $tier: DETECTED [$sig]"; results="$results $c:$tier:detected"; 
+  /verif/check "$c" "$tier" > "$L/check.$c.$tier.log" 2>&1; rc=$?
+  sig=$(grep -m3 'signature:' "$L/check.$c.$tier.log" | sed 's/^ *signature: //' | paste -sd';')
+  if [ $rc -eq 1 ]; then echo "  $c $tier: DETECTED [$sig]"; results="$results $c:$tier:detected";
   elif [ $rc -eq 0 ]; then echo "  $c $tier: MISSED"; results="$results $c:$tier:missed";
-  else echo "  $c $tier: INFRA rc=$rc $(tail -2 $out/check.$c.$tier.log | tr '\n' ' ')"; results="$results $c:$tier:infra"; fi
+  else echo "  $c $tier: INFRA rc=$rc $(tail -2 $L/check.$c.$tier.log | tr '\n' ' ')"; results="$results $c:$tier:infra"; fi
+  grep -m3 -A3 '^VIOLATION' "$L/check.$c.$tier.log" | cut -c1-300 > "$out/detected.$c.$tier.txt"; [ -s "$out/detected.$c.$tier.txt" ] || rm -f "$out/detected.$c.$tier.txt"
 done
-git -C /repo checkout -- .
-python3 - "$out" "$name" "$res_without" "$res_with" "$build_with" "$results" <<'PY'
+[ "${SEED_IN_REPO:-0}" = 1 ] && git -C /repo checkout -- .
+python3 - "$out" "$name" "$res_without" "$res_with" "$build_with" "$suite_with" "$results" <<'PY'
 import json,sys,os
-out,name,rw,rwi,b,results=sys.argv[1:7]
+out,name,rw,rwi,b,sw,results=sys.argv[1:8]
 meta={}
 p=os.path.join(out,'meta.agent.json')
 if os.path.exists(p):
     try: meta=json.load(open(p))
     except Exception: meta={}
+old={}
+q=os.path.join(out,'meta.json')
+if os.path.exists(q):
+    try: old=json.load(open(q))
+    except Exception: old={}
+runs=dict(x.rsplit(':',1) for x in old.get('checks_run',[]))
+for x in results.split():
+    k,v=x.rsplit(':',1); runs[k]=v
 m={"name":name,"property":meta.get("property",name.split('-')[0].upper()),"summary":meta.get("summary",""),
    "needs_to_manifest":meta.get("needs_to_manifest",""),
-   "confirmed":{"demo_on_unchanged_tree":rw,"demo_with_change":rwi,"build_with_change":b,
-                "existing_suite_with_change":meta.get("how_verified","see meta.agent.json")},
-   "checks_run":results.split()}
-json.dump(m,open(os.path.join(out,'meta.json'),'w'),indent=1)
+   "demo_dir":meta.get("demo_dir",""),
+   "confirmed_here":{"demo_on_unchanged_tree":rw,"demo_with_change":rwi,"build_with_change":b,
+                "existing_suite_with_change":sw if sw!='skip' else old.get('confirmed_here',{}).get('existing_suite_with_change','skip')},
+   "agent_verification":meta.get("how_verified",""),
+   "checks_run":[f"{k}:{v}" for k,v in sorted(runs.items())]}
+json.dump(m,open(q,'w'),indent=1)
 PY
